@@ -146,7 +146,7 @@ pub fn render(t: &Tm) -> String {
 }
 
 pub fn owner_of(slice: &str) -> &'static str {
-    match slice { "cut" => "C02", "not" => "C03", "print" => "C04", "time" => "X01", _ => "C01" }
+    match slice { "cut" => "C02", "not" => "C03", "print" => "C04", "time" => "X01", "anon" => "C09", _ => "C01" }
 }
 
 /// the text time(...) writes ("3 seconds 141 microseconds ") as the specification's token
